@@ -493,6 +493,86 @@ func (r *runner) singleQueries(st *State, rng *rand.Rand) []any {
 		}
 		out = append(out, M{"q": "Class", "id": c["id"], "err": false, "admin": NameOfBech32(res.Class.Admin), "ct": res.Class.CreditTypeAbbrev})
 	}
+	// parameter-style queries
+	coinStr := func(denom string, amt fmt.Stringer, nilAmt bool) string {
+		if denom == "" || nilAmt {
+			return "none"
+		}
+		return denom + ":" + amt.String()
+	}
+	if res, err := bq.ClassFee(ctx, &basetypes.QueryClassFeeRequest{}); err != nil {
+		out = append(out, M{"q": "Param", "name": "ClassFee", "err": true, "v": "", "items": []string{}})
+	} else {
+		v := "none"
+		if res.Fee != nil {
+			v = coinStr(res.Fee.Denom, res.Fee.Amount, res.Fee.Amount.IsNil())
+		}
+		out = append(out, M{"q": "Param", "name": "ClassFee", "err": false, "v": v, "items": []string{}})
+	}
+	if res, err := kq.BasketFee(ctx, &baskettypes.QueryBasketFeeRequest{}); err != nil {
+		out = append(out, M{"q": "Param", "name": "BasketFee", "err": true, "v": "", "items": []string{}})
+	} else {
+		v := "none"
+		if res.Fee != nil {
+			v = coinStr(res.Fee.Denom, res.Fee.Amount, res.Fee.Amount.IsNil())
+		}
+		out = append(out, M{"q": "Param", "name": "BasketFee", "err": false, "v": v, "items": []string{}})
+	}
+	if res, err := bq.ClassCreatorAllowlist(ctx, &basetypes.QueryClassCreatorAllowlistRequest{}); err != nil {
+		out = append(out, M{"q": "Param", "name": "Allowlist", "err": true, "v": "", "items": []string{}})
+	} else {
+		out = append(out, M{"q": "Param", "name": "Allowlist", "err": false, "v": fmt.Sprint(res.Enabled), "items": []string{}})
+	}
+	if res, err := bq.AllowedBridgeChains(ctx, &basetypes.QueryAllowedBridgeChainsRequest{}); err != nil {
+		out = append(out, M{"q": "Param", "name": "BridgeChains", "err": true, "v": "", "items": []string{}})
+	} else {
+		items := append([]string{}, res.AllowedBridgeChains...)
+		out = append(out, M{"q": "Param", "name": "BridgeChains", "err": false, "v": "", "items": items})
+	}
+	if res, err := bq.AllowedClassCreators(ctx, &basetypes.QueryAllowedClassCreatorsRequest{}); err != nil {
+		out = append(out, M{"q": "Param", "name": "Creators", "err": true, "v": "", "items": []string{}})
+	} else {
+		items := []string{}
+		for _, a := range res.ClassCreators {
+			items = append(items, NameOfBech32(a))
+		}
+		out = append(out, M{"q": "Param", "name": "Creators", "err": false, "v": "", "items": items})
+	}
+	if res, err := bq.CreditTypes(ctx, &basetypes.QueryCreditTypesRequest{}); err != nil {
+		out = append(out, M{"q": "Param", "name": "CreditTypes", "err": true, "v": "", "items": []string{}})
+	} else {
+		items := []string{}
+		for _, t := range res.CreditTypes {
+			items = append(items, strings.Join([]string{t.Abbreviation, t.Name, t.Unit, fmt.Sprint(t.Precision)}, "|"))
+		}
+		out = append(out, M{"q": "Param", "name": "CreditTypes", "err": false, "v": "", "items": items})
+	}
+	for _, k := range st.Baskets {
+		res, err := kq.Basket(ctx, &baskettypes.QueryBasketRequest{BasketDenom: k["denom"].(string)})
+		if err != nil || res.BasketInfo == nil {
+			out = append(out, M{"q": "Basket", "denom": k["denom"], "err": true, "v": "", "items": []string{}})
+			continue
+		}
+		b := res.BasketInfo
+		crit := "none:0"
+		if d := b.DateCriteria; d != nil {
+			switch {
+			case d.MinStartDate != nil:
+				if t, ok := TimeTick(time.Unix(d.MinStartDate.Seconds, int64(d.MinStartDate.Nanos)).UTC()); ok {
+					crit = "min:" + fmt.Sprint(t)
+				} else {
+					crit = "min:offlattice"
+				}
+			case d.StartDateWindow != nil:
+				crit = "window:" + fmt.Sprint(int64(time.Duration(d.StartDateWindow.Seconds)*time.Second/tickDur))
+			case d.YearsInThePast != 0:
+				crit = "years:" + fmt.Sprint(d.YearsInThePast)
+			}
+		}
+		out = append(out, M{"q": "Basket", "denom": k["denom"], "err": false,
+			"v":     strings.Join([]string{b.Name, b.CreditTypeAbbrev, fmt.Sprint(b.DisableAutoRetire), NameOfBech32(b.Curator), crit}, "|"),
+			"items": append([]string{}, res.Classes...)})
+	}
 	for _, p := range st.Projects {
 		res, err := bq.Project(ctx, &basetypes.QueryProjectRequest{ProjectId: p["id"].(string)})
 		if err != nil {
